@@ -156,24 +156,169 @@ def _augment(hyps, goal, assume_domains):
     return out
 
 
-def prepare(hyps, goal, assume_domains=True, extra=()):
-    """the SMT queries deciding  hyps |= goal : a list of (hypotheses, sub-goal); the goal holds
-    iff every sub-goal follows from its hypotheses"""
+def _occurs(v, t):
+    return any(x is v for x in T.subterms([t]))
+
+
+def unit_facts(hyps):
+    """rewriting facts read off the hypotheses: Boolean atoms that hold / do not hold, terms
+    known to equal a constant, index variables known to equal a term"""
+    m = {}
+    for h in hyps:
+        if h.sort != T.BOOL or h.op == "const":
+            continue
+        if h.op == "not":
+            a = h.args[0]
+            if a.op not in ("and", "or", "not"):
+                m.setdefault(a, T.FALSE)
+            continue
+        if h.op in ("and", "or"):
+            continue
+        if h.op == "=":
+            x, y = h.args
+            if x.sort != T.REAL:
+                if T.is_const(y) and not T.is_const(x):
+                    m.setdefault(x, y)
+                elif T.is_const(x) and not T.is_const(y):
+                    m.setdefault(y, x)
+                elif x.op == "var" and "!" in x.args[0] and not _occurs(x, y):
+                    m.setdefault(x, y)
+                elif y.op == "var" and "!" in y.args[0] and not _occurs(y, x):
+                    m.setdefault(y, x)
+        m.setdefault(h, T.TRUE)
+    return m
+
+
+def simplify_goal(hyps, goal):
+    m = unit_facts(hyps)
+    if not m:
+        return goal
+    for _ in range(3):
+        g2 = T.substitute(goal, m)
+        if g2 is goal:
+            break
+        goal = g2
+    return goal
+
+
+def peel(goal, lits=()):
+    """goal as a list of (antecedent literals, consequent): conjunctions separated,
+    implications  (not c) or g  opened"""
+    if goal.op == "and":
+        out = []
+        for x in goal.args:
+            out.extend(peel(x, lits))
+        return out
+    if goal.op == "or":
+        eqs = [x for x in goal.args if x.op == "=" and x.args[0].sort == T.REAL]
+        if len(eqs) == 1:
+            others = [T.not_(x) for x in goal.args if x is not eqs[0]]
+            return peel(eqs[0], tuple(lits) + tuple(others))
+    return [(tuple(lits), goal)]
+
+
+COND_ORACLE = None  # set by the driver: (hyps, cond) -> True / False / None
+
+
+def _discrete_atom(c):
+    """conditions worth deciding up front: comparisons of integers / references / class tags"""
+    if c.op in ("<", "<=", "="):
+        return c.args[0].sort in (T.INT, T.REF)
+    if c.op == "not":
+        return _discrete_atom(c.args[0])
+    if c.op in ("and", "or"):
+        return all(_discrete_atom(x) for x in c.args)
+    return c.op.startswith("uf:") or c.op == "var"
+
+
+def decide_conditions(hyps, goal, log, cache=None, lits=()):
+    """rewrite ite conditions over integers/references that the hypotheses already decide
+    (each rewrite is justified by its own small entailment query).  `cache` remembers, for one
+    path, conditions entailed by an earlier (smaller) hypothesis set without case literals -
+    entailment is monotone in the hypotheses."""
+    if COND_ORACLE is None:
+        return goal
+    for _ in range(4):
+        conds = [c for c in S.ite_conditions([goal], limit=200) if _discrete_atom(c)]
+        m = {}
+        for c in conds[:40]:
+            if cache is not None and c.uid in cache:
+                m[c] = cache[c.uid]
+                continue
+            v = None
+            if COND_ORACLE(hyps, c) is False:
+                v = T.FALSE
+            elif COND_ORACLE(hyps, T.not_(c)) is False:
+                v = T.TRUE
+            if v is not None:
+                if cache is not None:
+                    cache[c.uid] = v
+                m[c] = v
+            elif lits:
+                h2 = list(hyps) + list(lits)
+                if COND_ORACLE(h2, c) is False:
+                    m[c] = T.FALSE
+                elif COND_ORACLE(h2, T.not_(c)) is False:
+                    m[c] = T.TRUE
+        if not m:
+            break
+        log.append(len(m))
+        g2 = T.substitute(goal, m)
+        if g2 is goal:
+            break
+        goal = g2
+    return goal
+
+
+def prepare(hyps, goal, assume_domains=True, extra=(), cond_cache=None):
+    """the SMT queries deciding  hyps |= goal.  Returns a list of alternative encodings, each a
+    list of (hypotheses, sub-goal): the goal holds iff, in one (equivalently: every) encoding,
+    every sub-goal follows from its hypotheses.
+      'split': conjunctions separated, Real equalities split by cases on their ite conditions
+               and cross-multiplied (division free);
+      'plain': the goal as it is (SMT-LIB real division, ite terms)."""
     hyps = list(hyps) + list(extra)
     if goal is None:
-        return [(_augment(hyps, None, assume_domains), None)]
-    base_roots = hyps + [goal]
-    subs, dens = S.cross_multiply(goal)
-    if assume_domains:
-        hyps = hyps + domain_facts(base_roots) + [T.ne(d, 0) for d in dens]
-    else:
-        subs = [((), T.ne(d, 0)) for d in dens] + list(subs)
-    out = []
-    for lits, g in subs:
+        return [("plain", [(_augment(hyps, None, assume_domains), None)])]
+    split_out, plain_out = [], []
+    split_ok = True
+    for lits, g in peel(goal):
+        h1 = hyps + list(lits)
+        roots0 = h1 + [g]
+        g = simplify_goal(h1, g)
         if g is T.TRUE:
             continue
-        out.append((_augment(hyps + list(lits), g, assume_domains), g))
-    return out
+        if g.op == "=" and g.args[0].sort == T.REAL:
+            log = []
+            g = decide_conditions(_augment(hyps, None, False), g, log, cond_cache, lits)
+            if g is T.TRUE:
+                continue
+        dom = domain_facts(roots0) if assume_domains else []
+        plain_out.append((_augment(h1 + dom, g, assume_domains), g))
+        if split_ok:
+            try:
+                subs, dens = S.cross_multiply(g)
+            except S.SplitBudget:
+                split_ok = False
+                continue
+            h2 = h1 + dom
+            if assume_domains:
+                h2 = h2 + [T.ne(d, 0) for d in dens]
+            else:
+                subs = [((), T.ne(d, 0)) for d in dens] + list(subs)
+            for l2, g2 in subs:
+                if g2 is T.TRUE:
+                    continue
+                split_out.append((_augment(h2 + list(l2), g2, assume_domains), g2))
+    if not plain_out:
+        return [("split", [])]
+    alts = []
+    if split_ok:
+        alts.append(("split", split_out))
+        if not split_out:
+            return alts
+    alts.append(("plain", plain_out))
+    return alts
 
 
 # ----------------------------------------------------------------------------------
@@ -187,6 +332,7 @@ class Oracle:
         self.timeout = timeout
         self.cache = {}
         self.n = 0
+        self._ctr = __import__("itertools").count(1)
         self.time = 0.0
 
     def __call__(self, hyps, cond):
@@ -195,8 +341,9 @@ class Oracle:
             return self.cache[key]
         hs = _augment(list(hyps) + [cond], None, True)
         script = T.smt_script(hs, None, produce_models=False)
-        self.n += 1
-        path = os.path.join(self.outdir, f"feas_{self.n}.smt2")
+        k = next(self._ctr)
+        self.n = k
+        path = os.path.join(self.outdir, f"feas_{k}.smt2")
         r = S.check(script, path, timeout=self.timeout, order=("z3-4.8",))
         self.time += r["time"]
         v = r["verdict"]
@@ -277,12 +424,16 @@ def explore(task, make_interp, outdir, max_paths=400, feas_timeout=3.0):
     return done, undecided, oracle
 
 
-def discharge(task, ctxs, outdir, timeout=10.0, order=S.DEFAULT_ORDER, want_all=False, pool=None):
+def discharge(task, ctxs, outdir, timeout=10.0, order=S.DEFAULT_ORDER, want_all=False, threads=4):
     """decide every obligation recorded on the explored paths"""
+    global COND_ORACLE
+    COND_ORACLE = Oracle(os.path.join(outdir, "cond"), 2.0)
     jobs = []
     seen = {}
+    caches = {}
     for pi, c in enumerate(ctxs):
         axioms = list(c.axioms.values())
+        caches[pi] = {}
         for oi, ob in enumerate(c.obligations):
             hyps = axioms + c.hyps[: ob.nhyps]
             key = (tuple(sorted(h.uid for h in hyps)), ob.goal.uid, ob.kind, ob.label)
@@ -290,44 +441,59 @@ def discharge(task, ctxs, outdir, timeout=10.0, order=S.DEFAULT_ORDER, want_all=
                 continue
             seen[key] = True
             oid = f"{task.name}::{ob.kind}[{ob.label}]@p{pi}.{oi}"
-            if ob.goal is T.TRUE:
-                jobs.append((oid, ob, pi, None, None))
-                continue
-            subs = prepare(hyps, ob.goal, ob.assume_domains)
-            if not subs:
-                jobs.append((oid, ob, pi, None, None))
-                continue
-            base = hashlib.sha1(oid.encode()).hexdigest()[:16]
-            scripts = []
-            for k, (hs, g) in enumerate(subs):
-                scripts.append((T.smt_script(hs, g), os.path.join(outdir, f"{base}_{k}.smt2")))
-            jobs.append((oid, ob, pi, scripts, None))
-    results = []
+            jobs.append((oid, ob, pi, hyps))
 
-    def run_job(j):
-        oid, ob, pi, scripts, _ = j
-        if scripts is None:
-            return Result(oid, ob.kind, ob.label, ob.where, "unsat", "syntactic-identity", 0.0, None, "", pi, ob.meta)
+    def run_encoding(scripts, tmo, order=order):
         verdict, solvers, total, tried, out, bad_file = "unsat", set(), 0.0, [], "", None
         for script, path in scripts:
-            r = S.check(script, path, timeout=timeout, order=order, want_all=want_all)
+            r = S.check(script, path, timeout=tmo, order=order, want_all=want_all)
             total += r["time"]
             tried.append(r["tried"])
             if r["solver"]:
                 solvers.add(r["solver"])
             if r["verdict"] == "sat":
-                verdict, out, bad_file = "sat", r.get("output", ""), path
-                break
+                return "sat", solvers, total, tried, r.get("output", ""), path
             if r["verdict"] != "unsat":
                 verdict, out, bad_file = r["verdict"], r.get("output", ""), path
-        return Result(oid, ob.kind, ob.label, ob.where, verdict, "+".join(sorted(solvers)) or None, total,
-                      bad_file or scripts[0][1], out, pi, dict(ob.meta, tried=tried, queries=len(scripts)))
+                break
+        return verdict, solvers, total, tried, out, bad_file
 
-    if pool is not None:
-        results = list(pool.map(run_job, jobs))
-    else:
-        results = [run_job(j) for j in jobs]
-    return results
+    def run_job(j):
+        oid, ob, pi, hyps = j
+        if ob.goal is T.TRUE:
+            return Result(oid, ob.kind, ob.label, ob.where, "unsat", "syntactic-identity", 0.0, None, "", pi, ob.meta)
+        alts = prepare(hyps, ob.goal, ob.assume_domains, cond_cache=caches[pi])
+        if alts and alts[0][0] == "split" and not alts[0][1]:
+            return Result(oid, ob.kind, ob.label, ob.where, "unsat", "syntactic-identity", 0.0, None, "", pi, ob.meta)
+        base = hashlib.sha1(oid.encode()).hexdigest()[:16]
+        encd = {}
+        for name, subs in alts:
+            encd[name] = [(T.smt_script(hs, g), os.path.join(outdir, f"{base}_{name}{k}.smt2")) for k, (hs, g) in enumerate(subs)]
+        total, alltried, last = 0.0, [], None
+        stages = []
+        if "plain" in encd:
+            stages.append(("plain", encd["plain"], min(3.0, timeout), (order[0],)))
+        if "split" in encd:
+            stages.append(("split", encd["split"], timeout, order))
+        if "plain" in encd:
+            stages.append(("plain", encd["plain"], timeout, order))
+        for name, scripts, tmo, ordr in stages:
+            verdict, solvers, t, tried, out, bad_file = run_encoding(scripts, tmo, ordr)
+            total += t
+            alltried.append({"encoding": name, "queries": len(scripts), "tried": tried})
+            last = (verdict, solvers, out, bad_file or scripts[0][1], name)
+            if verdict in ("unsat", "sat"):
+                break
+        verdict, solvers, out, f, name = last
+        return Result(oid, ob.kind, ob.label, ob.where, verdict, "+".join(sorted(solvers)) or None, total, f, out, pi,
+                      dict(ob.meta, tried=alltried, encoding=name))
+
+    if threads > 1 and len(jobs) > 1:
+        from concurrent.futures import ThreadPoolExecutor
+
+        with ThreadPoolExecutor(max_workers=threads) as ex:
+            return list(ex.map(run_job, jobs))
+    return [run_job(j) for j in jobs]
 
 
 def cover_checks(task, ctxs, outdir, timeout=5.0):
